@@ -81,6 +81,16 @@ static const Hand HAND[] = {
     {"lea rax, [rbx+0x10000000000000000]", CF_EITHER},
     {"add rcx, 0x100000000000000000000", CF_EITHER},
     {"mov rdx, -99999999999999999999999", CF_EITHER},
+    // the shortest literals there are: one decimal digit (whatever follows the digit in memory is not part of it)
+    {"mov rcx, 5", CF_SAFE},
+    {"mov r10, 7", CF_SAFE},
+    {"mov rdx, 0", CF_SAFE},
+    {"add rcx, 3", CF_SAFE},
+    {"sub r8, 9", CF_SAFE},
+    {"and rdx, 8", CF_SAFE},
+    {"mov ecx, 1", CF_SAFE},
+    {"shl r9, 2", CF_SAFE},
+    {"cmp r11, 4", CF_SAFE},
     // bytes outside printable ASCII at the end of a line: accepted or rejected, but the same way every time
     {"mov rax, 0x7fffffff\x7f", CF_EITHER},
     {"nop\x7f", CF_EITHER},
